@@ -292,7 +292,14 @@ Record WF (cs : list change) : Prop := {
   (* the child table recorded in a foreign key of a dropped table is that table *)
   wf_child : forall t fks f, In (DropTable t fks) cs -> In f fks -> t_name (f_tab f) = t_name t;
   (* a declared foreign key points at a desired-state table: not at one the change set drops *)
-  wf_decl : forall x f, In x cs -> In f (added_fks x) -> ~ In (t_name (f_ref f)) (flat_map drops cs)
+  wf_decl : forall x f, In x cs -> In f (added_fks x) -> ~ In (t_name (f_ref f)) (flat_map drops cs);
+  (* the keys of a dropped table have distinct symbols; a ModifyTable drops / re-points a symbol at most once *)
+  wf_rm : forall x, In x cs ->
+            match x with
+            | AddTable _ _ => True
+            | DropTable _ fks => NoDup (map f_sym fks)
+            | ModifyTable _ tcs => NoDup (flat_map tc_rm tcs)
+            end
 }.
 
 (* does the change set remove the live foreign key e = (child, symbol, parent)? *)
@@ -312,7 +319,14 @@ Record consistent (c : cat) (cs : list change) : Prop := {
                 In (t_name (f_ref f)) (c_tabs c) \/ In (t_name (f_ref f)) (flat_map adds cs);
   (* every live foreign key from another table to a dropped table is dropped by the change set *)
   cn_live : forall e, In e (c_fks c) -> In (snd e) (flat_map drops cs) -> fst (fst e) <> snd e ->
-              exists x, In x cs /\ nm x = fst (fst e) /\ covers x e
+              exists x, In x cs /\ nm x = fst (fst e) /\ covers x e;
+  (* the keys of a dropped table, and the keys a ModifyTable drops or re-points, are live *)
+  cn_rm_live : forall x, In x cs ->
+                 match x with
+                 | AddTable _ _ => True
+                 | DropTable t fks => forall f, In f fks -> exists p, In (t_name t, f_sym f, p) (c_fks c)
+                 | ModifyTable t tcs => forall s, In s (flat_map tc_rm tcs) -> exists p, In (t_name t, s, p) (c_fks c)
+                 end
 }.
 
 Lemma adds_sub_names l n : In n (flat_map adds l) -> In n (map nm l).
@@ -343,6 +357,39 @@ Qed.
 
 Lemma NoDup_of_names l : NoDup (map nm l) -> NoDup l.
 Proof. apply NoDup_map_inv. Qed.
+
+Lemma NoDup_keys (K : change -> list (nat * nat)) l :
+  NoDup (map nm l) -> (forall x, In x l -> NoDup (K x)) ->
+  (forall x k, In x l -> In k (K x) -> fst k = nm x) -> NoDup (flat_map K l).
+Proof.
+  induction l as [|x l IH]; simpl; intros Hn Hk Hf; [constructor|].
+  inversion Hn as [|? ? Hx Hn']; subst. apply NoDup_app_intro.
+  - apply Hk. left. reflexivity.
+  - apply IH; [exact Hn'|intros y Hy; apply Hk; right; exact Hy|intros y k Hy; apply Hf; right; exact Hy].
+  - intros k H1 H2. apply in_flat_map in H2. destruct H2 as [y [Hy H2]].
+    apply Hx. apply in_map_iff. exists y. split; [|exact Hy].
+    rewrite <- (Hf x k (or_introl eq_refl) H1). symmetry. apply (Hf y k (or_intror Hy) H2).
+Qed.
+
+Lemma NoDup_map_pair {A} (a : nat) (l : list A) : NoDup l -> NoDup (map (pair a) l).
+Proof.
+  induction l as [|x l IH]; simpl; intros H; [constructor|]. inversion H; subst. constructor; [|apply IH; assumption].
+  intros Hin. apply in_map_iff in Hin. destruct Hin as [y [E Hy]]. inversion E; subst. contradiction.
+Qed.
+
+Lemma NoDup_map_filter {A B} (g : A -> B) (p : A -> bool) l : NoDup (map g l) -> NoDup (map g (filter p l)).
+Proof.
+  induction l as [|x l IH]; simpl; intros H; [constructor|]. inversion H; subst.
+  destruct (p x); simpl; [|apply IH; assumption]. constructor; [|apply IH; assumption].
+  intros Hin. apply H2. apply in_map_iff in Hin. destruct Hin as [y [E Hy]]. apply filter_In in Hy.
+  apply in_map_iff. exists y. tauto.
+Qed.
+
+Lemma rm_keys_fst x k : In k (rm_keys x) -> fst k = nm x.
+Proof.
+  destruct x as [t fks|t fks|t tcs]; simpl; intros H; try (destruct H; fail).
+  apply in_map_iff in H. destruct H as [s [<- _]]. reflexivity.
+Qed.
 
 (** * DetachCycles: what SortChanges receives *)
 Definition kle (sorted : list nat) (x y : change) : Prop := sort_key sorted x <= sort_key sorted y.
@@ -604,6 +651,14 @@ Section WithWF.
           unfold ra, sort_key. simpl. lia.
         * unfold nm in Hny; simpl in Hny. split; [simpl; rewrite Hcov; rewrite (proj2 (Nat.eqb_eq _ _) Hny); reflexivity|].
           unfold ra. simpl. pose proof (key_bound (ModifyTable t tcs)). unfold Koff. lia.
+      - (* explicitly dropped keys: once, and live *)
+        apply (Permutation_NoDup (Permutation_flat_map rm_keys perm_part)).
+        apply NoDup_keys; [apply (wf_names cs HWF)| |intros x k _; apply rm_keys_fst].
+        intros x Hx. pose proof (wf_rm cs HWF x Hx) as Hw. destruct x as [t fks|t fks|t tcs]; simpl; try constructor.
+        apply NoDup_map_pair. exact Hw.
+      - intros k Hk. apply (proj1 (fm_in _ _)) in Hk. apply in_flat_map in Hk. destruct Hk as [x [Hx Hk]].
+        pose proof (cn_rm_live c cs Hcons x Hx) as Hl. destruct x as [t fks|t fks|t tcs]; simpl in Hk; try (destruct Hk; fail).
+        apply in_map_iff in Hk. destruct Hk as [s0 [<- Hs]]. apply (Hl s0 Hs).
     Qed.
 
     Lemma acyc_replay : exists c', replay (partition_changes S) c = Some c'.
@@ -859,9 +914,6 @@ Proof.
   destruct (filter (fun c => negb (is_addfk c)) tcs); [destruct Hin|left; reflexivity].
 Qed.
 
-Lemma NoDup_app_r {A} (l1 l2 : list A) : NoDup (l1 ++ l2) -> NoDup l2.
-Proof. induction l1 as [|a l1 IH]; simpl; intros H; [exact H|]. inversion H; subst. apply IH. assumption. Qed.
-
 Lemma adds_unique l t1 f1 t2 f2 :
   NoDup (flat_map adds l) -> In (AddTable t1 f1) l -> In (AddTable t2 f2) l -> t_name t1 = t_name t2 ->
   AddTable t1 f1 = AddTable t2 f2.
@@ -900,6 +952,75 @@ Qed.
 (* rank witnessing that dependsOn is acyclic on a detached plan *)
 Definition rho_c (x : change) : nat :=
   match x with AddTable _ _ => 0 | ModifyTable _ _ => 1 | DropTable _ _ => 2 end.
+
+(* the keys the detached plan drops explicitly, per source change *)
+Definition pkeys (src : change) : list (nat * nat) :=
+  match src with
+  | AddTable _ _ => []
+  | DropTable t fks => map (pair (t_name t)) (map f_sym (ext_of t fks))
+  | ModifyTable t tcs => map (pair (t_name t)) (flat_map tc_rm tcs)
+  end.
+
+Lemma tc_rm_mapdrop l : flat_map tc_rm (map DropFK l) = map f_sym l.
+Proof. induction l as [|a l IH]; simpl; [reflexivity|]. rewrite IH. reflexivity. Qed.
+
+Lemma tc_rm_addfks l : (forall tc, In tc l -> is_addfk tc = true) -> flat_map tc_rm l = [].
+Proof.
+  induction l as [|a l IH]; simpl; intros H; [reflexivity|].
+  rewrite IH by (intros tc Htc; apply H; right; exact Htc).
+  pose proof (H a (or_introl eq_refl)) as Ha. destruct a; try discriminate. reflexivity.
+Qed.
+
+Lemma tc_rm_rest tcs : flat_map tc_rm (filter not_addfk tcs) = flat_map tc_rm tcs.
+Proof.
+  induction tcs as [|a l IH]; simpl; [reflexivity|].
+  destruct a; simpl; rewrite IH; reflexivity.
+Qed.
+
+Lemma rm_keys_planned src : flat_map rm_keys (det_planned src) = pkeys src.
+Proof.
+  destruct src as [t fks|t fks|t tcs]; simpl.
+  - destruct (filter _ fks); reflexivity.
+  - unfold ext_of. destruct (filter (fun f => negb (ptr_eqb (f_ref f) t)) fks) as [|e ext] eqn:E; [reflexivity|].
+    change (flat_map rm_keys [ModifyTable t (map DropFK (e :: ext))])
+      with (map (pair (t_name t)) (flat_map tc_rm (map DropFK (e :: ext))) ++ []).
+    rewrite app_nil_r. rewrite (tc_rm_mapdrop (e :: ext)). reflexivity.
+  - pose proof (tc_rm_rest tcs) as Hr. unfold not_addfk in Hr.
+    destruct (filter (fun c => negb (is_addfk c)) tcs) as [|e rest] eqn:E.
+    + simpl in Hr. rewrite <- Hr. reflexivity.
+    + rewrite <- Hr.
+      change (flat_map rm_keys [ModifyTable t (e :: rest)])
+        with (map (pair (t_name t)) (flat_map tc_rm (e :: rest)) ++ []).
+      rewrite app_nil_r. reflexivity.
+Qed.
+
+Lemma rm_keys_deferred src : flat_map rm_keys (det_deferred src) = [].
+Proof.
+  destruct src as [t fks|t fks|t tcs]; simpl.
+  - destruct (filter (fun f => negb (ptr_eqb (f_ref f) t)) fks) as [|e ext] eqn:E; [reflexivity|].
+    assert (Hz : flat_map tc_rm (map AddFK (e :: ext)) = []).
+    { apply tc_rm_addfks. intros tc Htc. apply in_map_iff in Htc. destruct Htc as [g [<- _]]. reflexivity. }
+    change (flat_map rm_keys [ModifyTable t (map AddFK (e :: ext))])
+      with (map (pair (t_name t)) (flat_map tc_rm (map AddFK (e :: ext))) ++ []).
+    rewrite Hz. reflexivity.
+  - destruct (filter _ fks); reflexivity.
+  - destruct (filter is_addfk tcs) as [|e rest] eqn:E; [reflexivity|].
+    assert (Hz : flat_map tc_rm (e :: rest) = []).
+    { rewrite <- E. apply tc_rm_addfks. intros tc Htc. apply filter_In in Htc. tauto. }
+    change (flat_map rm_keys [ModifyTable t (e :: rest)])
+      with (map (pair (t_name t)) (flat_map tc_rm (e :: rest)) ++ []).
+    rewrite Hz. reflexivity.
+Qed.
+
+Lemma detach_rm_keys cs : flat_map rm_keys (detachReferences cs) = flat_map pkeys cs.
+Proof.
+  unfold detachReferences. rewrite flat_map_app.
+  assert (H1 : forall l, flat_map rm_keys (flat_map det_planned l) = flat_map pkeys l).
+  { induction l as [|x l IH]; simpl; [reflexivity|]. rewrite flat_map_app, rm_keys_planned, IH. reflexivity. }
+  assert (H2 : forall l, flat_map rm_keys (flat_map det_deferred l) = []).
+  { induction l as [|x l IH]; simpl; [reflexivity|]. rewrite flat_map_app, rm_keys_deferred, IH. reflexivity. }
+  rewrite H1, H2, app_nil_r. reflexivity.
+Qed.
 
 Section Cyclic.
   Variable cs : list change.
@@ -1107,6 +1228,21 @@ Section Cyclic.
           assert (Hdd : is_drop (DropTable p fks) = false).
           { apply (Hbehind _ z q2 _ Eo' Hzd). apply in_or_app. right. left. reflexivity. }
           discriminate.
+      - (* explicitly dropped keys: once *)
+        apply (Permutation_NoDup (fmO rm_keys)). unfold L. rewrite detach_rm_keys.
+        apply NoDup_keys; [apply (wf_names cs HWF)| |].
+        + intros x Hx. pose proof (wf_rm cs HWF x Hx) as Hw. destruct x as [t fks|t fks|t tcs]; simpl; try constructor.
+          * apply NoDup_map_pair. unfold ext_of. apply NoDup_map_filter. exact Hw.
+          * apply NoDup_map_pair. exact Hw.
+        + intros x k _ Hk. destruct x as [t fks|t fks|t tcs]; simpl in Hk; try (destruct Hk; fail);
+            apply in_map_iff in Hk; destruct Hk as [s0 [<- _]]; reflexivity.
+      - (* ... and live *)
+        intros k Hk. apply (Permutation_in _ (Permutation_sym (fmO rm_keys))) in Hk. unfold L in Hk.
+        rewrite detach_rm_keys in Hk. apply in_flat_map in Hk. destruct Hk as [x [Hx Hk]].
+        pose proof (cn_rm_live c cs Hcons x Hx) as Hl. destruct x as [t fks|t fks|t tcs]; simpl in Hk; try (destruct Hk; fail).
+        + apply in_map_iff in Hk. destruct Hk as [s0 [<- Hs]]. apply in_map_iff in Hs. destruct Hs as [f [<- Hf]].
+          apply filter_In in Hf. apply (Hl f (proj1 Hf)).
+        + apply in_map_iff in Hk. destruct Hk as [s0 [<- Hs]]. apply (Hl s0 Hs).
     Qed.
   End Out.
 
